@@ -426,81 +426,136 @@ theorem one_shot (cfg : Cfg) (view : View) (h' : HState) (it : Iter) (top' t' : 
   have hw : wake cfg h' it = .stop := by unfold wake; simp [hd, hn, hi]
   unfold Next; rw [hw]; exact fun h => h
 
-/-! ### "unless idling postpones it": which events reset idling (finding C10-F3) -/
+/-! ### "unless idling postpones it": which events reset idling (fixed finding C10-F3) -/
 
 /-- Every essential change resets idling (the direction the idle clause needs; `idle_law_full` is its
     sequence-level form). -/
 theorem essential_resets (lastHandled seen : Option Nat) (new : Nat)
     (h : isEssential lastHandled seen new = true) : resetsIdle lastHandled seen new = true := by
   unfold isEssential at h
-  unfold resetsIdle resetCond
   cases seen with
-  | none => simp at h ⊢; exact h
-  | some s => simp at h ⊢; exact Or.inr h
+  | none => rw [resetsIdle_none]; exact h
+  | some s => rw [resetsIdle_some]; exact h
 
-/-- FULL statement (false of the code, see the witness below): `resetsIdle lastHandled seen new = isEssential
-    lastHandled seen new` for every event — only essential changes reset idling.
-    Proved under the guard: it is the first event of the memory, or the event carries its own essence as last
-    handled (the object is handled, nothing is pending). -/
-theorem reset_iff_essential_partial (lastHandled seen : Option Nat) (new : Nat)
-    (hg : seen = none ∨ lastHandled = some new) :
+/-- UNGUARDED (since 14876bf): an event resets idling if and only if it is an essential change — its essence differs
+    from the one of the previously processed event, or, on the first event of a memory, from the last-handled one (or
+    nothing is stored). For every event, whatever is stored as last handled. -/
+theorem reset_iff_essential (lastHandled seen : Option Nat) (new : Nat) :
     resetsIdle lastHandled seen new = isEssential lastHandled seen new := by
-  unfold resetsIdle resetCond isEssential
-  rcases hg with hg | hg
-  · subst hg; simp
-  · subst hg; cases seen <;> simp
+  cases seen with
+  | none => rw [resetsIdle_none]; rfl
+  | some s => rw [resetsIdle_some]; rfl
 
-/-- The guard is necessary: an event that shows the SAME essence as the previous one (not a change) resets idling
-    when nothing is stored as last handled (operators with timers/daemons only), and when a change is not handled
-    yet (last handled = 3, the object is at 7 and was at 7 before). -/
-theorem nonessential_reset_witness :
-    (isEssential none (some 7) 7 = false ∧ resetsIdle none (some 7) 7 = true) ∧
-    (isEssential (some 3) (some 7) 7 = false ∧ resetsIdle (some 3) (some 7) 7 = true) := by decide
+/-- The timer's own result patches never reset idling: an event that shows the essence of the previous event (a
+    status-only change, a change of kopf's own annotations, a resync) is no reset — whatever is, or is not, stored as last
+    handled, handled or not. (That a result patch leaves the essence as it was is the S-tie's: the real `cause.reset`
+    of every event is compared with this function of the oracle's own essence.) -/
+theorem same_essence_never_resets (lastHandled : Option Nat) (s : Nat) : resetsIdle lastHandled (some s) s = false := by
+  rw [resetsIdle_some]; simp
 
-/-- FULL statement (false of the code): with no essential change after the first event `e0`, the run after a
-    success starts exactly at `max (patched + interval) (e0.t + idle)` — idling postpones it only as far as the
-    last essential change requires.
-    Proved under the guard `Settled e0 es`: every later event shows `e0`'s essence AND carries it as last handled. -/
-theorem interval_exact_when_settled_partial (cfg : Cfg) (created spawn : Int) (e0 : Ev) (es : List Ev) (its : List Iter)
+/-- Regression of the fixed finding C10-F3 (the variant before 14876bf): an event that shows the SAME essence as the
+    previous one reset idling when nothing was stored as last handled (operators with timers/daemons only), and when a
+    change was not handled yet (last handled = 3, the object is at 7 and was at 7 before). Not any more. -/
+theorem nonessential_reset_regression :
+    (isEssential none (some 7) 7 = false ∧ resetsIdleLastHandled none (some 7) 7 = true ∧ resetsIdle none (some 7) 7 = false) ∧
+    (isEssential (some 3) (some 7) 7 = false ∧ resetsIdleLastHandled (some 3) (some 7) 7 = true ∧
+      resetsIdle (some 3) (some 7) 7 = false) := by decide
+
+/-- UNGUARDED, for every event history: whatever a timer reads as `idle_reset_time` is the creation time of its memory
+    or one of the two stamps of an ESSENTIAL change — so idling postpones a run only as far as an essential change (or
+    the first sight of the object by this operator process) requires: the run after a success starts on time, or
+    exactly `idle` after such an instant read while waiting. -/
+theorem postponed_only_by_essential (cfg : Cfg) (created spawn : Int) (evs : List Ev) (its : List Iter)
+    (h : Sched cfg (viewOf created evs) spawn its)
+    (n : Nat) (a b : Iter) (r : Result) (i idle : Int) (ha : its[n]? = some a) (hb : its[n + 1]? = some b)
+    (hr : a.res = some r)
+    (hc : classify cfg (attemptOf (stateAt cfg spawn its n) a) (runtimeOf (stateAt cfg spawn its n) a) r = .done)
+    (hi : cfg.interval = some i) (hpos : 0 < i) (hs : cfg.sharp = false) (hidle : cfg.idle = some idle) :
+    b.start = a.patched + i ∨ b.start = created + idle ∨ ∃ c ∈ stampsOf (essentialEvs evs), b.start = c + idle := by
+  rcases ((interval_law cfg _ spawn its h n a b r i ha hb hr hc hi hpos hs).2.2.2.2.2 idle hidle).2.1 with h0 | ⟨u, _, _, hu⟩
+  · exact Or.inl h0
+  · rcases viewOf_mem created evs u with hv | hv
+    · exact Or.inr (Or.inl (by rw [hu, hv]))
+    · exact Or.inr (Or.inr ⟨_, hv, hu⟩)
+
+/-- … and every view is such an instant (the fact behind it, for every history and instant). -/
+theorem view_is_created_or_essential (created : Int) (evs : List Ev) (t : Int) :
+    viewOf created evs t = created ∨ viewOf created evs t ∈ stampsOf (essentialEvs evs) := viewOf_mem created evs t
+
+/-- With no essential change after the first event `e0` (`Unchanged`: every later event shows `e0`'s essence —
+    whatever is stored as last handled, so also in operators with timers only), the run after a success starts exactly
+    at `max (patched + interval) (e0.t + idle)`: idling postpones it only as far as the last essential change
+    requires; in particular the timer's own result patches (events of the same essence) do not. No guard on what is
+    stored as last handled any more (formerly `interval_exact_when_settled_partial`). -/
+theorem interval_exact_unless_changed (cfg : Cfg) (created spawn : Int) (e0 : Ev) (es : List Ev) (its : List Iter)
     (h : Sched cfg (viewOf created (e0 :: es)) spawn its)
     (n : Nat) (a b : Iter) (r : Result) (i idle : Int) (ha : its[n]? = some a) (hb : its[n + 1]? = some b)
     (hr : a.res = some r)
     (hc : classify cfg (attemptOf (stateAt cfg spawn its n) a) (runtimeOf (stateAt cfg spawn its n) a) r = .done)
     (hi : cfg.interval = some i) (hpos : 0 < i) (hs : cfg.sharp = false) (hidle : cfg.idle = some idle)
-    (hset : Settled e0 es) (hr0 : resetsIdle e0.lastHandled none e0.ess = true)
+    (hset : Unchanged e0 es) (hr0 : isEssential e0.lastHandled none e0.ess = true)
     (h1 : created ≤ e0.recv) (h2 : e0.recv ≤ e0.t) (h3 : e0.t ≤ a.patched + i) :
     b.start = max (a.patched + i) (e0.t + idle) := by
   have hl := (interval_law cfg _ spawn its h n a b r i ha hb hr hc hi hpos hs).2.2.2.2.2 idle hidle
   refine hl.2.2 e0.t (fun u hu => ?_)
-  rw [viewOf_settled created e0 es hset u]
-  exact viewOf_single created e0 u hr0 h1 h2 (by omega)
+  rw [viewOf_unchanged created e0 es hset u]
+  exact viewOf_single created e0 u (essential_resets _ _ _ hr0) h1 h2 (by omega)
 
-/-- The guard is necessary (corpus/C10/F3.json in small): interval 64, idle 128, an object created at 0 and never
-    changed (one essential change: `essentialTimes = [0]`); nothing is stored as last handled. The first run is at
-    128, its result is patched at 129, the patch's own event (130: same essence) resets idling: the next run is at
-    258 = 130 + idle, not at `max (129 + 64) (0 + 128) = 193`. -/
-theorem interval_postponed_by_own_patch_witness :
-    ∃ (cfg : Cfg) (evs : List Ev) (a b : Iter),
-      Sched cfg (viewOf 0 evs) 0 [a, b] ∧ essentialTimes evs = [0] ∧ a.res = some .ok ∧
-      cfg.interval = some 64 ∧ cfg.idle = some 128 ∧ a.patched + 64 = 193 ∧ b.start = 258 := by
+/-- Regression of the fixed finding C10-F3 (corpus/C10/F3.json in small): interval 64, idle 128, an object created at 0
+    and never changed (one essential change: `essentialTimes = [0]`); nothing is stored as last handled. The first run
+    is at 128, its result is patched at 129, the patch's own event arrives at 130 (same essence). In the variant
+    before 14876bf that event reset idling and the next run was at 258 = 130 + idle; now the view stays 0 and the next
+    run is at `max (129 + 64) (0 + 128) = 193` — the old run sequence is no behaviour of the model any more. -/
+theorem interval_postponed_by_own_patch_regression :
+    ∃ (cfg : Cfg) (evs : List Ev) (a b b' : Iter),
+      essentialTimes evs = [0] ∧ a.res = some .ok ∧ cfg.interval = some 64 ∧ cfg.idle = some 128 ∧ a.patched + 64 = 193 ∧
+      Sched cfg (viewOfLastHandled 0 evs) 0 [a, b] ∧ b.start = 258 ∧
+      Sched cfg (viewOf 0 evs) 0 [a, b'] ∧ b'.start = 193 ∧
+      schedCheck cfg (fun t => some (viewOf 0 evs t)) 8 0 [a, b] = false := by
   refine ⟨{ interval := some 64, sharp := false, idle := some 128, initialDelay := none, backoff := 64 },
     [⟨0, 0, 1, none⟩, ⟨130, 130, 1, none⟩],
     { top := 0, start := 128, ended := 128, patched := 129, res := some .ok },
-    { top := 193, start := 258, ended := 258, patched := 258, res := some .ok }, ?_, by decide, rfl, rfl, rfl, rfl, rfl⟩
-  exact schedCheck_sound (extends_total _) (n := 8) (by decide)
+    { top := 193, start := 258, ended := 258, patched := 258, res := some .ok },
+    { top := 193, start := 193, ended := 193, patched := 193, res := some .ok },
+    by decide, rfl, rfl, rfl, rfl, ?_, rfl, ?_, rfl, by decide⟩
+  · exact schedCheck_sound (extends_total _) (n := 8) (by decide)
+  · exact schedCheck_sound (extends_total _) (n := 8) (by decide)
 
-/-! ### how a timer task ends, and whether the timer can come back (finding C10-F4) -/
+/-! ### how a timer task ends, and whether the timer can come back (fixed finding C10-F4) -/
 
 /-- A task that was asked to stop (filters mismatch, pause) leaves the timer re-spawnable. -/
 theorem stopped_stays_respawnable : respawnable (foreverAfter false .stopped) = true := by decide
 
-/-- A one-shot timer that has ended, and — the finding — a timer whose post-run patch RAISED, are never spawned
-    again in this operator process: `_runner` cannot tell the two from each other (`stopper.reason is None`). The
-    schedule theorems are about prefixes (`Sched`): an exception out of `patch_and_check` is the one truncation of
-    the sequence that nobody asked for. -/
-theorem raised_is_never_respawned_witness (already : Bool) :
+/-- Since b8b3089 a failed post-run patch (an API error beyond the request's own retries) does NOT end the timer task:
+    the post-run branch chain is entered as after a delivered patch, and the undelivered patch — everything that was
+    handed to `patch_and_check`, this run's result included — is what the next iteration starts with. -/
+theorem failed_patch_keeps_timer (patch remaining : List Nat) :
+    exitAfterPatch onPatchError .raised = none ∧ carriedPatch onPatchError patch remaining .raised = patch ∧
+    carriedPatch onPatchError patch remaining .delivered = remaining := ⟨rfl, rfl, rfl⟩
+
+/-- … and it keeps the timer ON SCHEDULE: whichever post-run patches fail, the run sequences of the task are exactly
+    the `Sched` ones — every law above (`no_overlap`, `interval_law`, `sharp_grid`, `error_delay_law`, `idle_law_full`, …)
+    holds for the iteration after a failed patch too, with `patched` = the instant the patch gave up. -/
+theorem failed_patch_keeps_schedule (cfg : Cfg) (view : View) (spawn : Int) (its : List Iter) (raisedAt : Nat → Bool) :
+    SchedUnder onPatchError cfg view spawn its raisedAt ↔ Sched cfg view spawn its := by
+  refine ⟨fun h => h.1, fun h => ⟨h, fun n _ => ?_⟩⟩
+  cases raisedAt n <;> rfl
+
+/-- Regression of the fixed finding C10-F4 (the variant before b8b3089, `propagate`): an iteration whose post-run patch
+    raised was the last of its task — after a successful run no next run — and `_runner` recorded the handler as
+    stopped for ever, as it still does for a one-shot timer that has returned (it cannot tell the two from each other:
+    `stopper.reason is None`): never spawned again in this operator process. -/
+theorem raised_is_never_respawned_regression (already : Bool) (cfg : Cfg) (view : View) (spawn : Int) (its : List Iter)
+    (raisedAt : Nat → Bool) (n : Nat) (hr : raisedAt n = true)
+    (h : SchedUnder .propagate cfg view spawn its raisedAt) :
+    its.length ≤ n + 1 ∧ exitAfterPatch .propagate .raised = some .raised ∧
     respawnable (foreverAfter already .raised) = false ∧ respawnable (foreverAfter already .returned) = false := by
-  cases already <;> decide
+  refine ⟨?_, rfl, by cases already <;> decide, by cases already <;> decide⟩
+  rcases Nat.lt_or_ge (n + 1) its.length with hlt | hge
+  · have := h.2 n hlt
+    rw [hr] at this
+    simp [exitAfterPatch] at this
+  · exact hge
 
 /-! ### non-vacuity: concrete instances meeting the hypotheses -/
 
@@ -615,6 +670,38 @@ private def itsG := [mkF 64 320, mkF 384 384, mkF 448 448, mkF 512 512, mkF 576 
 example : Sched cfgF (viewOf 64 evsG) 64 itsG := schedCheck_sound (extends_total _) (n := 8) (by decide)
 example : FullIdleRecv 256 evsG itsG :=
   idle_law_recv cfgF 64 64 256 evsG _ rfl (schedCheck_sound (extends_total _) (n := 8) (by decide))
+
+-- fixed finding C10-F3 in small, a timer-only operator (nothing is ever stored as last handled): created at 0, the
+-- results of the runs are patched at 129, 194, 259 and their events (same essence) arrive one tick later. None of them
+-- is a reset (`same_essence_never_resets`): the view stays 0, the period is the interval (64), not the idle time (128) …
+private def cfgO : Cfg := { interval := some 64, sharp := false, idle := some 128, initialDelay := none, backoff := 64 }
+private def e0O : Ev := ⟨0, 0, 1, none⟩
+private def esO : List Ev := [⟨130, 130, 1, none⟩, ⟨195, 195, 1, none⟩, ⟨260, 260, 1, none⟩]
+private def mkO (top t : Int) : Iter := { top := top, start := t, ended := t, patched := t + 1, res := some .ok }
+private def itsO := [mkO 0 128, mkO 193 193, mkO 258 258]
+private theorem unchangedO : Unchanged e0O esO := by
+  intro e he; simp [esO] at he; rcases he with rfl | rfl | rfl <;> rfl
+example : isEssential e0O.lastHandled none e0O.ess = true := by decide
+example : Sched cfgO (viewOf 0 (e0O :: esO)) 0 itsO := schedCheck_sound (extends_total _) (n := 8) (by decide)
+-- … an instance of `interval_exact_unless_changed` (n = 0: 129 + 64 = 193 = max 193 (0 + 128)) and of `postponed_only_by_essential`
+example : (mkO 193 193).start = max ((mkO 0 128).patched + 64) (e0O.t + 128) :=
+  interval_exact_unless_changed cfgO 0 0 e0O esO itsO (schedCheck_sound (extends_total _) (n := 8) (by decide))
+    0 (mkO 0 128) (mkO 193 193) .ok 64 128 rfl rfl rfl (by decide) rfl (by decide) rfl rfl unchangedO (by decide) (by decide) (by decide) (by decide)
+-- … whereas a real change (essence 2 at 200) does postpone: `essentialEvs` has it, the view follows it
+example : essentialTimes (e0O :: [⟨130, 130, 1, none⟩, ⟨200, 200, 2, none⟩]) = [0, 200] ∧
+    viewOf 0 (e0O :: [⟨130, 130, 1, none⟩, ⟨200, 200, 2, none⟩]) 258 = 200 := by decide
+
+-- fixed finding C10-F4 in small (corpus/C10/F4.json): interval 64, the post-run patch of the second run fails after 4
+-- attempts (entered at 64, gives up at 320): the third run starts one interval after that — a `Sched` as any other,
+-- under the code's policy whatever `raisedAt` says; under `propagate` the same sequence is not a behaviour
+private def cfgK : Cfg := { interval := some 64, sharp := false, idle := none, initialDelay := none, backoff := 64 }
+private def itsK : List Iter := [{ top := 0, start := 0, ended := 0, patched := 0, res := some .ok },
+  { top := 64, start := 64, ended := 64, patched := 320, res := some .ok }, { top := 384, start := 384, ended := 384, patched := 385, res := some .ok }]
+example : SchedUnder onPatchError cfgK view0 0 itsK (fun n => n == 1) :=
+  (failed_patch_keeps_schedule cfgK view0 0 itsK _).2 (schedCheck_sound (extends_total _) (n := 8) (by decide))
+example : ¬ SchedUnder .propagate cfgK view0 0 itsK (fun n => n == 1) := fun h => by
+  have := (raised_is_never_respawned_regression false cfgK view0 0 itsK (fun n => n == 1) 1 rfl h).1
+  simp [itsK] at this
 
 end Examples
 
